@@ -16,7 +16,8 @@ CHUNK = {"quick": 20, "thorough": 100}
 PROBES = ["read_after_modification", "stale_cache_opportunity", "nested_modification_via_tree", "variant_block", "default_variant",
           "data_transform_list", "execute_list", "beacon_gate_list", "repeated_option", "repeated_block", "kwargs_style",
           "calls_style", "reparse", "empty_block", "pair_statement", "same_text_parsed_twice", "escape_at_edge_of_literal",
-          "option_value_as_bytes", "caller_touches_returned_dict"]
+          "option_value_as_bytes", "caller_touches_returned_dict", "nested_modification_two_levels_down",
+          "topdown_style"]
 RULE = ("seeded histories (2-24 ops) on one C2Profile: 'add' ops append a global option or a fully built block (all 11 "
         "block kinds, options by alias/keyword table, header/parameter/strrep pairs, data-transform lists in the six "
         "non-variant list paths, execute and BeaconGate lists, process-inject transform-x86) built either through kwargs "
@@ -197,7 +198,7 @@ def generate(rng, tier, index):
         else:
             ops.append(["read", rng.choice(["as_dict", "as_dict", "properties", "as_text", "str", "reparse"])])
     ops.append(["read", "as_dict"])
-    plan = {"world": "H", "ops": ops, "style": rng.choice(["kwargs", "calls"])}
+    plan = {"world": "H", "ops": ops, "style": rng.choice(["kwargs", "calls", "topdown"])}
     if rng.random() < 0.25:
         # parsed-from-text population with variants
         items = []
@@ -406,11 +407,14 @@ def _dt_block(cp, steps, term):
     return cp.DataTransformBlock(steps=sl)
 
 
-def build_block(cp, alias, items, style):
+def build_block(cp, alias, items, style, attach=None):
+    """style "kwargs": constructor keywords where they can express the block; "calls": an empty block filled by calls and
+    attached when complete; "topdown": every block is attached to its parent FIRST (the outermost one via `attach`) and
+    filled afterwards - all three are equivalent builder call sequences."""
     kwname, cls, _, _ = BLOCKS[alias]
     klass = getattr(cp, cls)
 
-    def make(klass, its, style, balias):
+    def make(klass, its, style, balias, attach_to=None):
         if style == "kwargs" and _kwargs_ok(its):
             kwargs = {}
             for it in its:
@@ -423,6 +427,8 @@ def build_block(cp, alias, items, style):
                     kwargs[it[1]] = _dt_block(cp, it[2], it[3])
             return klass(**kwargs)
         b = klass()
+        if style == "topdown" and attach_to is not None:
+            attach_to(b)
         for it in its:
             k = it[0]
             if k == "set":
@@ -436,7 +442,10 @@ def build_block(cp, alias, items, style):
                 else:
                     b._pair(it[1], [(it[2], it[3])])
             elif k == "block":
-                b.set_config_block(it[1], make(cp.HttpOptionsBlock, it[2], style, balias))
+                if style == "topdown":
+                    make(cp.HttpOptionsBlock, it[2], style, balias, attach_to=lambda child, n_=it[1], b_=b: b_.set_config_block(n_, child))
+                else:
+                    b.set_config_block(it[1], make(cp.HttpOptionsBlock, it[2], style, balias))
             elif k == "dt":
                 b.set_config_block(it[1], _dt_block(cp, it[2], it[3]))
             elif k == "exec":
@@ -460,7 +469,7 @@ def build_block(cp, alias, items, style):
                 b.set_config_block("transform_x86", tb)
         return b
 
-    return make(klass, items, style, alias)
+    return make(klass, items, style, alias, attach_to=attach)
 
 
 def _kwargs_ok(its):
@@ -579,9 +588,13 @@ def execute(plan: dict) -> Result:
                         res.probes["repeated_option"] += 1
                     items.append(it)
                 else:
-                    b = build_block(cp, it[1], it[2], style)
+                    if style == "topdown":
+                        res.probes["topdown_style"] += 1
+                        b = build_block(cp, it[1], it[2], style, attach=lambda blk, n_=it[1]: prof.set_config_block(n_, blk))
+                    else:
+                        b = build_block(cp, it[1], it[2], style)
+                        prof.set_config_block(it[1], b)
                     b2 = build_block(cp, it[1], it[2], "calls" if style == "kwargs" else "kwargs")
-                    prof.set_config_block(it[1], b)
                     other.set_config_block(it[1], b2)
                     if any(x[0] == "block" and x[1] == it[1] for x in items):
                         res.probes["repeated_block"] += 1
@@ -614,10 +627,29 @@ def execute(plan: dict) -> Result:
                 opts = BLOCKS[mit[1]][2]
                 a = opts[(oi * 7) % len(opts)][0]
                 pos = [i for i, x in enumerate(items) if x is mit][0]
-                for pr in (prof, other):
-                    pr.tree.children[pos].children.append(
-                        Tree(a, [Tree("string", [Token("STRING", cp.value_to_string(op[2]))])]))
-                mit[2].append(["set", a, op[2]])
+                inner = [x for x in mit[2] if x[0] == "block"]
+                if inner and (oi + len(op[2])) % 2 == 0:
+                    # two levels down (e.g. http-get > client): neither the top-level statement count nor the block's own
+                    # statement count changes
+                    tgt = inner[(oi // 2) % len(inner)]
+                    done = 0
+                    for pr in (prof, other):
+                        nodes = [c for c in pr.tree.children[pos].children if isinstance(c, Tree) and c.data == tgt[1]]
+                        k_ = [x for x in mit[2] if x[0] == "block" and x[1] == tgt[1]].index(tgt)
+                        if k_ < len(nodes):
+                            nodes[k_].children.append(Tree("header", [Tree("string", [Token("STRING", cp.value_to_string("X-Deep"))]),
+                                                                      Tree("string", [Token("STRING", cp.value_to_string(op[2]))])]))
+                            done += 1
+                    if done == 2:
+                        tgt[2].append(["pair", "header", "X-Deep", op[2]])
+                        res.probes["nested_modification_two_levels_down"] += 1
+                    elif done:
+                        raise core.HarnessError("deep modification applied to one of the two profiles only")
+                else:
+                    for pr in (prof, other):
+                        pr.tree.children[pos].children.append(
+                            Tree(a, [Tree("string", [Token("STRING", cp.value_to_string(op[2]))])]))
+                    mit[2].append(["set", a, op[2]])
                 res.probes["nested_modification_via_tree"] += 1
                 if read_seen:
                     modified_since_read = True
